@@ -301,7 +301,13 @@ class Lower:
                 if r and e[3] == ('id', self.mark):
                     return '(LSetMark %s)' % r
                 if self.obj(e[2], 'weight') == 'RRtc' and self.snap and e[3] == call0(('id', self.snap), 'size'):
+                    if getattr(self, 'snap_moved', False):
+                        self.bad('the local list is read after it was moved from', st)
                     return 'LSetWeightLocal'
+                if (self.stage == 'dedup' and self.snap and self.obj(e[2], 'transitive_bases') == 'RRtc'
+                        and e[3] == ('call', ('id', 'std::move'), [('id', self.snap)])):
+                    self.snap_moved = True        # x = std::move(local), the local not read afterwards: what swap leaves in x
+                    return 'LSwapTbLocal'
                 if (self.obj(e[2], 'weight') == 'RRtc' and e[3][0] == 'call' and e[3][2] == [] and e[3][1][0] == 'member' and e[3][1][2] == 'size'
                         and self.obj(e[3][1][1], 'transitive_bases') == 'RRtc'):
                     return 'LSetWeightTb'
@@ -416,6 +422,53 @@ def closure_stage(st):
     return lo.seq(body[1:])
 
 
+def fission_direct_derived(flat):
+    """for (X : classes) { ... X.direct_bases.push_back(Y); Y->direct_derived.push_back(&X); ... }     and no other mention of
+       direct_derived in the function
+         is   the same loop without the second statement, followed by
+              for (X : classes) for (Y : X.direct_bases) Y->direct_derived.push_back(&X);
+       (loop fission: the second statement runs once per element appended to X.direct_bases, right after the append, touches
+        only direct_derived, and nothing reads direct_derived before both loops are over; every direct_derived vector receives
+        the same elements in the same order)"""
+    if repr(flat).count("'direct_derived'") != 1:
+        return flat
+    for k, loop in enumerate(flat):
+        if not (loop[0] == 'rangefor' and isinstance(loop[1], str) and loop[2] == ('id', 'classes')):
+            continue
+        X = loop[1]
+        found = []
+
+        def strip(n):
+            if isinstance(n, list):
+                out = []
+                j = 0
+                while j < len(n):
+                    a = n[j]
+                    b = n[j + 1] if j + 1 < len(n) else None
+                    if (a[:1] == ('expr',) and b is not None and b[:1] == ('expr',) and a[1][0] == 'call' and b[1][0] == 'call'
+                            and a[1][1] == ('member', ('member', ('id', X), 'direct_bases', False), 'push_back', False) and len(a[1][2]) == 1
+                            and a[1][2][0][0] == 'id'
+                            and b[1][1] == ('member', ('member', a[1][2][0], 'direct_derived', True), 'push_back', False)
+                            and b[1][2] == [('un', '&', ('id', X))]):
+                        found.append((a[1][2][0][1], b))
+                        out.append(strip(a))
+                        j += 2
+                        continue
+                    out.append(strip(a))
+                    j += 1
+                return out
+            if isinstance(n, tuple):
+                return tuple(strip(x) for x in n)
+            return n
+        body = strip(loop[3])
+        if len(found) == 1:
+            Y, S2 = found[0]
+            derived = ('rangefor', X, ('id', 'classes'),
+                       ('block', [('rangefor', Y, ('member', ('id', X), 'direct_bases', False), ('block', [S2]))]))
+            return flat[:k] + [(loop[0], loop[1], loop[2], body), derived] + flat[k + 1:]
+    return flat
+
+
 def main():
     try:
         src = mc.strip_comments(open(SRC).read())
@@ -452,6 +505,7 @@ def main():
             norm.append(st)
             i += 1
         flat = norm
+        flat = fission_direct_derived(flat)
         if len(flat) == 7 and not (flat[3][0] == 'decl'):
             flat = flat[:3] + [('decl', 'std::size_t', [('mark', None)])] + flat[3:]      # no function-level mark: each loop declares its own
         if len(flat) == 8 and flat[3] == ('expr', ('un', '++', ('id', 'class_mark'))):
